@@ -178,7 +178,7 @@ func ReadOptions(r *packet.Reader) Options {
 			return options
 		}
 
-		temp = temp[:0]
+		temp = temp[:4]
 
 		r.ReadBytes(temp)
 		if e := r.Error(); e != nil {
